@@ -250,6 +250,27 @@ Section Reader.
   (* the two entry points *)
   Definition read_entry_file (fuel : nat) (p : path) (al : list path) : res :=
     read_file (rd fuel) p al.
+
+  (* read_neuroml2_file(p, include_includes=True, optimized=True) on an HDF5 entry file:
+     NeuroMLHdf5Parser.get_nml_doc, optimized branch - a new document, add_all_to_document(extra, doc),
+     then  doc.networks.append(self.optimizedNetwork)  (a plain append: no id test, own network LAST).
+     `optimized` reaches only the file handed to read_neuroml2_file: includes are read with the default. *)
+  Definition load_h5_opt (rec : bool -> path -> list path -> res) (loc : path) (al : list path) : res :=
+    match lookup loc (fs_files fs) with
+    | Some (FH5 nets None) => Done ({| d_comps := nets; d_incs := [] |}, al)
+    | Some (FH5 nets (Some x)) =>
+      match read_x rec (dirname loc) x al with
+      | Done (extra, al') => Done ({| d_comps := (d_comps extra ++ nets)%list; d_incs := [] |}, al')
+      | Err e => Err e
+      | OutOfFuel => OutOfFuel
+      end
+    | _ => Err EH5Open
+    end.
+
+  Definition read_entry_file_opt (fuel : nat) (opt : bool) (p : path) (al : list path) : res :=
+    if opt && entry_is_h5 p then
+      (if negb (is_file fs p) then Err EMissing else load_h5_opt (rd fuel) p (mark p al))
+    else read_entry_file fuel p al.
   Definition read_entry_string (fuel : nat) (x : xfile) (base : option path) (al : list path) : res :=
     read_x (rd fuel) (match base with Some b => b | None => cwd end) x al.
 
@@ -370,7 +391,7 @@ Inductive obs :=
 | OErr (e : err)
 | ONonTerm.                               (* RecursionError / wall-clock guard *)
 
-Record case := { k_fs : fsys; k_cwd : path; k_entry : entry; k_al : list path;
+Record case := { k_fs : fsys; k_cwd : path; k_entry : entry; k_opt : bool; k_al : list path;
                  k_names : list string; k_obs : obs }.
 
 Definition view (names : list string) (d : list comp) : list (list (cid * Z)) :=
@@ -379,7 +400,7 @@ Definition view (names : list string) (d : list comp) : list (list (cid * Z)) :=
 Definition model_obs (c : case) : obs :=
   let fuel := enough (k_fs c) in
   let r := match k_entry c with
-           | EntFile p => read_entry_file (k_fs c) (k_cwd c) fuel p (k_al c)
+           | EntFile p => read_entry_file_opt (k_fs c) (k_cwd c) fuel (k_opt c) p (k_al c)
            | EntString x b => read_entry_string (k_fs c) (k_cwd c) fuel x b (k_al c)
            end in
   match r with
